@@ -18,6 +18,12 @@ def main():
     seed = int(os.environ.get("VERIF_SEED", "0") or 0)
     mod = importlib.import_module("props." + a.prop.lower())
     if a.replay:
+        try:
+            import json
+            if (json.load(open(a.replay)).get("converter_history") or {}).get("cfg"):
+                os.environ["VERIF_REPLAY_CONV_CFG"] = json.load(open(a.replay))["converter_history"]["cfg"]
+        except Exception:
+            pass
         sys.exit(mod.replay(a.replay))
     chk = V.Check(a.prop, a.tier, seed, level=getattr(mod, "LEVEL", "proof"))
     try:
